@@ -4,6 +4,9 @@ import PB.Spec.KVStore
 import PBProofs.Lemmas.Db
 import PBProofs.Lemmas.DbSim
 import PBProofs.Lemmas.DbDelay
+import PBProofs.Lemmas.DbSrc
+import PB.Gen.DbTime
+import PB.Gen.MetaSrc
 /-
 C02 — Every database backend behaves like one reference key-to-record store.
 Property theorems only (helper lemmas live in PBProofs/Lemmas/Db.lean and DbSim.lean).
@@ -43,6 +46,65 @@ theorem refines_with_batch_behind_cache_REFUTED :
     (by decide) (by simp [wellTimed])
   revert this
   decide
+
+/-! ### The clock comparisons of the source are the ones the theorems are about
+
+`PB.Gen.MetaSrc` (record.Meta methods, translated by golean.go) and `PB.Gen.DbTime` (decision switch of
+`MaintainRecordStates` per backend) are regenerated from /repo on every run. The model's `maintainRec` is
+defined over `PB.Gen.DbTime`; the statements below are about those generated functions, so an operator that
+changes in the source is re-checked here. -/
+
+/-- `Meta.CheckValidity` as it stands in the source is the model's notion of "visible". -/
+theorem source_checkValidity_is_model (m : Meta) (now : Int) :
+    PB.Gen.MetaSrc.Meta_CheckValidity (srcMeta m) now = .ok (m.valid now) := by
+  unfold PB.Gen.MetaSrc.Meta_CheckValidity Meta.valid srcMeta
+  by_cases hd : m.deleted > 0
+  · simp [hd]
+  · by_cases he : m.expires > 0 ∧ m.expires < now
+    · simp [hd, he]
+    · simp only [hd, he, decide_false, if_false, Bool.false_eq_true]
+      by_cases h1 : m.expires > 0 <;> by_cases h2 : m.expires < now <;> simp_all
+
+/-- `Meta.IsDeleted`, `SetAbsoluteExpiry`, `Reset`, `Delete` of the source are the model's. -/
+theorem source_meta_setters_are_model (m : Meta) (now s : Int) :
+    PB.Gen.MetaSrc.Meta_IsDeleted (srcMeta m) now = .ok m.isDeleted ∧
+    PB.Gen.MetaSrc.Meta_SetAbsoluteExpiry (srcMeta m) now s = .ok (srcMeta (m.setAbsoluteExpiry s)) ∧
+    PB.Gen.MetaSrc.Meta_Reset (srcMeta m) now = .ok (srcMeta m.reset) ∧
+    PB.Gen.MetaSrc.Meta_Delete (srcMeta m) now = .ok (srcMeta (m.delete now)) := by
+  refine ⟨?_, ?_, ?_, ?_⟩ <;>
+    simp [PB.Gen.MetaSrc.Meta_IsDeleted, PB.Gen.MetaSrc.Meta_SetAbsoluteExpiry, PB.Gen.MetaSrc.Meta_Reset,
+      PB.Gen.MetaSrc.Meta_Delete, srcMeta, Meta.isDeleted, Meta.setAbsoluteExpiry, Meta.reset, Meta.delete]
+
+/-- `Meta.Update` and `SetRelativateExpiry` of the source are the model's for every time and duration in `int64`
+    range (Go wraps around outside it; the model's integers do not). -/
+theorem source_meta_update_is_model (m : Meta) (now s : Int)
+    (hnow : -(2 : Int) ^ 62 ≤ now ∧ now < (2 : Int) ^ 62) (hdel : -(2 : Int) ^ 62 ≤ m.deleted ∧ m.deleted < (2 : Int) ^ 62)
+    (hs : -(2 : Int) ^ 62 ≤ s ∧ s < (2 : Int) ^ 62) :
+    PB.Gen.MetaSrc.Meta_Update (srcMeta m) now = .ok (srcMeta (m.update now)) ∧
+    PB.Gen.MetaSrc.Meta_SetRelativateExpiry (srcMeta m) now s = .ok (srcMeta (m.setRelativeExpiry s)) := by
+  have w1 : PB.Go.wrapI64 (now - m.deleted) = now - m.deleted := wrapI64_inRange _ (by omega) (by omega)
+  have w2 : PB.Go.wrapI64 (-s) = -s := wrapI64_inRange _ (by omega) (by omega)
+  constructor
+  · unfold PB.Gen.MetaSrc.Meta_Update Meta.update srcMeta
+    by_cases hc : m.created = 0 <;> by_cases hd : m.deleted < 0 <;> simp [hc, hd, w1]
+  · unfold PB.Gen.MetaSrc.Meta_SetRelativateExpiry Meta.setRelativeExpiry srcMeta
+    by_cases h : s ≥ 0 <;> simp [h, w2]
+
+/-- The decision switch of `MaintainRecordStates` in the source of every backend: what its first case marks
+    (shadow delete) or hands to the removal was already rejected by `CheckValidity` at that very second, and is
+    marked with a deletion stamp; what its second case removes is marked deleted. Holds for every `now`,
+    including the second in which `now = Expires`. `maintenance_invisible` and the two theorems after it rest on
+    exactly this. -/
+theorem source_maintenance_switch_touches_only_dead (b : Backend) (m : Meta) (now thr : Int) (sh : Bool) :
+    (b.expiredCase m now thr sh = true → m.valid now = false ∧ b.expiredMark m now thr > 0) ∧
+    (b.removeCase m now thr sh = true → m.deleted > 0 ∧ m.valid now = false) :=
+  ⟨Backend.expiredCase_dead b m now thr sh,
+   fun h => ⟨Backend.removeCase_dead b m now thr sh h, Meta.deleted_invalid (Backend.removeCase_dead b m now thr sh h)⟩⟩
+
+/-- Every read path that decides visibility on its own consults `CheckValidity` (controller get / get-meta, the
+    four query executors, bbolt purge, the runtime registry's query): at least one guard per function in the
+    source of this run. -/
+theorem source_read_paths_check_validity : ∀ p ∈ PB.Gen.DbTime.validityGuards, p.2 ≥ 1 := by decide
 
 /-! ### Maintenance -/
 
@@ -383,6 +445,17 @@ example :
        .one { key := "ab", fields := [("S", .prim (.str "q"))], md := { created := 13, modified := 13, expires := 100 } },
        .ok, .bool false, .ok, .recs []] := by
   refine ⟨by simp [wellTimed], by intro x hx; simp at hx; rcases hx with h | h | h | h | h | h | h | h | h | h | h <;> subst h <;> trivial, by decide⟩
+
+/-- The boundary second: a record whose expiry time is `now` is still visible, and maintenance at that second —
+    hashmap and bbolt, both delete modes, any purge threshold — leaves it where it is; one second later it is
+    invisible, removed without shadow delete and marked deleted with it. -/
+example :
+    let r : Rec := { key := "k", md := { created := 5, modified := 5, expires := 100 } }
+    r.md.valid 100 = true ∧ r.md.valid 101 = false ∧
+    (∀ b ∈ [Backend.hashmap, .bbolt], ∀ sh ∈ [true, false], ∀ thr ∈ [(0 : Int), 100, 101, 200],
+      maintainRec { backend := b, shadow := sh } 100 thr r = some r ∧
+      maintainRec { backend := b, shadow := false } 101 thr r = none ∧
+      (maintainRec { backend := b, shadow := true } 101 thr r).map (·.md.deleted) = some 100) := by decide
 
 /-- A well-typed condition on a harness-schema record (hypothesis of `struct_json_agree`) that matches. -/
 example :
